@@ -81,6 +81,8 @@ TreeOps == {"create_group", "set_dataset", "delete", "set_attr", "del_attr", "co
 MARK == "MARK"      \* the file whose content is exactly the IH5 deletion marker
 
 Accepts(env, C, a) ==
+    \* the driver object under the container was opened read-only: nothing that writes can succeed
+    IF a.ro THEN a.op = "require_group" /\ H5!IsGroup(C.tree, a.p) ELSE
     CASE a.op = "attach" ->
             /\ H5!Has(C.tree, a.p)
             /\ Candidates(env, a.schema, IF a.sver = <<>> THEN <<>> ELSE <<a.sver[1], a.sver[2], a.sver[3]>>) # {}
